@@ -23,7 +23,16 @@ package keeper
 //@ ghost pos.sinfohas (Array Bytes Bool)
 //@ ghost pos.missed (Array Bytes (Array Int Bool))
 //@ ghost pos.awards (Array Bytes Int)
+//@ ghost pos.awardq (Array Bytes Bool)
+//@ ghost pit.pos (Array Iface Int)
+//@ ghost pit.len (Array Iface Int)
+//@ ghost pit.key (Array Iface (Array Int Bytes))
+//@ ghost pit.val (Array Iface (Array Int Bytes))
+//@ ghost pit.at (Array Iface (Array Bytes Int))
+//@ ghost pit.sum (Array Iface (Array Int Int))
+//@ ghost pos.awardsum Int
 //@ ghost pos.burns (Array Bytes Int)
+//@ ghost pos.burnq (Array Bytes Bool)
 //@ ghost pos.stakesum Int
 
 // records are stored under their own address, and a validator's consensus key hashes to it
@@ -35,11 +44,17 @@ package keeper
 // C06: every validator that is not unstaked holds at least the minimum stake; unstaked ones hold nothing
 //@ invariant mininv: forall a Bytes :: pos.has[a] ==> (pos.vals[a].Status != 0 ==> val(pos.vals[a].StakedTokens) >= pp_minstake) && (pos.vals[a].Status == 0 ==> val(pos.vals[a].StakedTokens) == 0)
 
+// C10: an address that is not queued has no pending award (pos.awardq[a]: a record exists under 0x51|a)
+//@ invariant awardinv: forall a Bytes :: !pos.awardq[a] ==> pos.awards[a] == 0
+//@ invariant burninv: forall a Bytes :: !pos.burnq[a] ==> pos.burns[a] == 0
+
 // ---------------------------------------------------------------- storage accessors (assumed)
 
 //@ assumed func (k Keeper) GetValidator(ctx sdk.Ctx, addr sdk.Address) (validator types.Validator, found bool)
 //@   mode value
 //@   ensures found == pos.has[addr] && (found ==> validator == pos.vals[addr])
+// pos.stakesum is the sum of the (non-negative, valinv) stakes of the records that are not Unstaked, so it bounds each of them
+//@   ensures [sumbound] found && validator.Status != 0 ==> val(validator.StakedTokens) <= pos.stakesum
 //@ assumed func (k Keeper) SetValidator(ctx sdk.Ctx, validator types.Validator)
 //@   mode value
 //@   modifies pos.vals[validator.Address], pos.has[validator.Address], pos.stakesum
@@ -93,15 +108,15 @@ package keeper
 //@   ensures val(coins) == pos.awards[address]
 //@ assumed func (k Keeper) setValidatorAward(ctx sdk.Ctx, amount sdk.Int, address sdk.Address)
 //@   mode value
-//@   modifies pos.awards[address]
-//@   ensures pos.awards[address] == val(amount)
+//@   modifies pos.awards[address], pos.awardq[address], pos.awardsum
+//@   ensures pos.awards[address] == val(amount) && pos.awardq[address] && pos.awardsum == old(pos.awardsum) - old(pos.awards[address]) + val(amount)
 //@ assumed func (k Keeper) getValidatorBurn(ctx sdk.Ctx, address sdk.Address) (coins sdk.Dec, found bool)
 //@   mode value
 //@   ensures val(coins) == pos.burns[address]
 //@ assumed func (k Keeper) setValidatorBurn(ctx sdk.Ctx, amount sdk.Dec, address sdk.Address)
 //@   mode value
-//@   modifies pos.burns[address]
-//@   ensures pos.burns[address] == val(amount)
+//@   modifies pos.burns[address], pos.burnq[address]
+//@   ensures pos.burns[address] == val(amount) && pos.burnq[address]
 //@ assumed func (k Keeper) getPubKeyRelation(ctx sdk.Ctx, address crypto.Address) (pk posCrypto.PublicKey, err error)
 //@   mode value
 //@   ensures (err == nil) == pkrel_ok(address)
@@ -330,6 +345,50 @@ package keeper
 //@   ensures [stillbacked] pos.has[address] ==> amt(auth.bal[modaddr("staked_tokens_pool")], pp_denom) >= val(pos.vals[address].StakedTokens)
 //@   ensures [burnt] err == nil ==> amt(old(auth.supply), pp_denom) - amt(auth.supply, pp_denom) == old(val(pos.vals[address].StakedTokens)) - val(pos.vals[address].StakedTokens)
 //@
+// C07: queued burn severities accumulate per address
+//@ func (k Keeper) BurnValidator(ctx sdk.Ctx, address sdk.Address, severityPercentage sdk.Dec)
+//@   props C07
+//@   uses burninv
+//@   modifies pos.burns[address], pos.burnq[address]
+//@   ensures pos.burns[address] == old(pos.burns[address]) + val(severityPercentage) && pos.burnq[address]
+//@
+// C07/C04: at BeginBlock every queued burn is applied once as a slash of the validator's current consensus power and the
+// queue is emptied; only the staked pool and the supply lose tokens, by the same amount, and the pool keeps backing the stake.
+//@ func (k Keeper) burnValidators(ctx sdk.Ctx)
+//@   props C07 C04
+//@   uses bankinv valinv idxinv queueinv mininv burninv
+//@   requires pp_unstaking_time >= 0 && pp_minstake >= 0 && modreg("staked_tokens_pool") && modperm("staked_tokens_pool", "burner")
+//@   requires amt(auth.bal[modaddr("staked_tokens_pool")], pp_denom) >= pos.stakesum     // C04
+//@   requires forall a Bytes :: pos.burnq[a] ==> pos.has[a] && a != nil && pos.burns[a] <= pow10(18)
+//@   modifies everything
+//@   keeps pos.awards pos.awardq pos.awardsum pos.sinfo pos.sinfohas pos.missed
+//@   loop 1 frame
+//@   loop 1 decreases pit.len[iterator] - pit.pos[iterator]
+//@   loop 1 invariant 0 <= pit.pos[iterator] && pit.pos[iterator] <= pit.len[iterator]
+//@   loop 1 maintains bankinv valinv idxinv queueinv mininv
+//@   loop 1 invariant forall a Bytes :: pos.burnq[a] == (old(pos.burnq[a]) && pit.at[iterator][a] >= pit.pos[iterator])
+//@   loop 1 invariant forall a Bytes :: pos.burns[a] == ite(pos.burnq[a], old(pos.burns[a]), 0)
+//@   loop 1 invariant forall a Bytes :: pos.burnq[a] ==> pos.has[a] && pos.vals[a] == old(pos.vals[a])
+//@   loop 1 invariant forall a Bytes :: !old(pos.burnq[a]) ==> pos.has[a] == old(pos.has[a]) && pos.vals[a] == old(pos.vals[a])
+//@   loop 1 invariant amt(auth.bal[modaddr("staked_tokens_pool")], pp_denom) - pos.stakesum == old(amt(auth.bal[modaddr("staked_tokens_pool")], pp_denom) - pos.stakesum)
+//@   loop 1 invariant amt(auth.supply, pp_denom) - amt(auth.bal[modaddr("staked_tokens_pool")], pp_denom) == old(amt(auth.supply, pp_denom) - amt(auth.bal[modaddr("staked_tokens_pool")], pp_denom))
+//@   loop 1 invariant forall a Bytes :: a != modaddr("staked_tokens_pool") ==> auth.bal[a] == old(auth.bal[a])
+//@   loop 1 invariant forall a Bytes :: old(pos.burnq[a]) && pit.at[iterator][a] < pit.pos[iterator] ==> (pos.has[a] && (pos.vals[a] == old(pos.vals[a])
+//@          || (old(val(pos.vals[a].StakedTokens)) - max(min((ite(old(pos.vals[a]).Status == 2, old(val(pos.vals[a].StakedTokens)) / 1000000, 0) * 1000000 * old(pos.burns[a])) / pow10(18), old(val(pos.vals[a].StakedTokens))), 0) >= pp_minstake
+//@              && val(pos.vals[a].StakedTokens) == old(val(pos.vals[a].StakedTokens)) - max(min((ite(old(pos.vals[a]).Status == 2, old(val(pos.vals[a].StakedTokens)) / 1000000, 0) * 1000000 * old(pos.burns[a])) / pow10(18), old(val(pos.vals[a].StakedTokens))), 0) && pos.vals[a].Status == old(pos.vals[a]).Status)
+//@          || (old(val(pos.vals[a].StakedTokens)) - max(min((ite(old(pos.vals[a]).Status == 2, old(val(pos.vals[a].StakedTokens)) / 1000000, 0) * 1000000 * old(pos.burns[a])) / pow10(18), old(val(pos.vals[a].StakedTokens))), 0) < pp_minstake
+//@              && val(pos.vals[a].StakedTokens) == 0 && pos.vals[a].Status == 0)))
+//@   ensures [emptied] forall a Bytes :: !pos.burnq[a] && pos.burns[a] == 0
+//@   ensures [applied] forall a Bytes :: old(pos.burnq[a]) ==> (pos.has[a] && (pos.vals[a] == old(pos.vals[a])
+//@          || (old(val(pos.vals[a].StakedTokens)) - max(min((ite(old(pos.vals[a]).Status == 2, old(val(pos.vals[a].StakedTokens)) / 1000000, 0) * 1000000 * old(pos.burns[a])) / pow10(18), old(val(pos.vals[a].StakedTokens))), 0) >= pp_minstake
+//@              && val(pos.vals[a].StakedTokens) == old(val(pos.vals[a].StakedTokens)) - max(min((ite(old(pos.vals[a]).Status == 2, old(val(pos.vals[a].StakedTokens)) / 1000000, 0) * 1000000 * old(pos.burns[a])) / pow10(18), old(val(pos.vals[a].StakedTokens))), 0) && pos.vals[a].Status == old(pos.vals[a]).Status)
+//@          || (old(val(pos.vals[a].StakedTokens)) - max(min((ite(old(pos.vals[a]).Status == 2, old(val(pos.vals[a].StakedTokens)) / 1000000, 0) * 1000000 * old(pos.burns[a])) / pow10(18), old(val(pos.vals[a].StakedTokens))), 0) < pp_minstake
+//@              && val(pos.vals[a].StakedTokens) == 0 && pos.vals[a].Status == 0)))
+//@   ensures [others] forall a Bytes :: !old(pos.burnq[a]) ==> pos.has[a] == old(pos.has[a]) && pos.vals[a] == old(pos.vals[a])
+//@   ensures [backed] amt(auth.bal[modaddr("staked_tokens_pool")], pp_denom) - pos.stakesum == old(amt(auth.bal[modaddr("staked_tokens_pool")], pp_denom) - pos.stakesum)
+//@   ensures [supply] amt(auth.supply, pp_denom) - amt(auth.bal[modaddr("staked_tokens_pool")], pp_denom) == old(amt(auth.supply, pp_denom) - amt(auth.bal[modaddr("staked_tokens_pool")], pp_denom))
+//@   ensures [balances] forall a Bytes :: a != modaddr("staked_tokens_pool") ==> auth.bal[a] == old(auth.bal[a])
+//@
 // C07/C09: validateDoubleSign accepts evidence only inside the evidence window, against a known,
 // not unstaked, not tombstoned validator with signing info
 //@ func (k Keeper) validateDoubleSign(ctx sdk.Ctx, addr crypto.Address, infractionHeight int64, timestamp time.Time) (address sdk.Address, signInfo types.ValidatorSigningInfo, validator exported.ValidatorI, err sdk.Error)
@@ -369,8 +428,9 @@ package keeper
 // C10: an award queued for an address accumulates
 //@ func (k Keeper) AwardCoinsTo(ctx sdk.Ctx, amount sdk.Int, address sdk.Address)
 //@   props C10
-//@   modifies pos.awards[address]
-//@   ensures pos.awards[address] == old(pos.awards[address]) + val(amount)
+//@   uses awardinv
+//@   modifies pos.awards[address], pos.awardq[address], pos.awardsum
+//@   ensures pos.awards[address] == old(pos.awards[address]) + val(amount) && pos.awardq[address] && pos.awardsum == old(pos.awardsum) + val(amount)
 //@
 // C10/C02/C04: minting an award creates exactly `amount` new tokens, all of which end up with the
 // recipient; the staked pool is only a conduit and keeps its balance
@@ -383,6 +443,31 @@ package keeper
 //@   ensures [pool] res.Code == 0 ==> amt(auth.bal[modaddr("staked_tokens_pool")], pp_denom) == amt(old(auth.bal[modaddr("staked_tokens_pool")]), pp_denom)
 //@   ensures [recipient] res.Code == 0 ==> amt(auth.bal[address], pp_denom) == amt(old(auth.bal[address]), pp_denom) + val(amount)
 //@   ensures [exact] amt(auth.supply, pp_denom) == amt(old(auth.supply), pp_denom) || amt(auth.supply, pp_denom) == amt(old(auth.supply), pp_denom) + val(amount)
+//@   ensures [succeeds] modreg("staked_tokens_pool") && modperm("staked_tokens_pool", "minter") ==> res.Code == 0
+//@
+// C10: at BeginBlock every queued award is minted to its address exactly once and the queue is emptied.
+// The iterator is the ASSUMED snapshot model below (pit.*): it lists each queued address once with its amount.
+//@ func (k Keeper) mintValidatorAwards(ctx sdk.Ctx)
+//@   props C10
+//@   uses bankinv awardinv
+//@   requires modreg("staked_tokens_pool") && modperm("staked_tokens_pool", "minter")
+//@   requires forall a Bytes :: pos.awardq[a] ==> a != modaddr("staked_tokens_pool") && pos.awards[a] >= 0
+//@   modifies everything
+//@   keeps pos.vals pos.has pos.idx pos.queue pos.sinfo pos.sinfohas pos.missed pos.burns pos.stakesum
+//@   loop 1 frame
+//@   loop 1 decreases pit.len[iterator] - pit.pos[iterator]
+//@   loop 1 invariant 0 <= pit.pos[iterator] && pit.pos[iterator] <= pit.len[iterator]
+//@   loop 1 maintains bankinv
+//@   loop 1 invariant forall a Bytes :: pos.awardq[a] == (old(pos.awardq[a]) && pit.at[iterator][a] >= pit.pos[iterator])
+//@   loop 1 invariant forall a Bytes :: pos.awards[a] == ite(pos.awardq[a], old(pos.awards[a]), 0)
+//@   loop 1 invariant pos.awardsum == old(pos.awardsum) - pit.sum[iterator][pit.pos[iterator]]
+//@   loop 1 invariant forall a Bytes :: a != modaddr("staked_tokens_pool") ==> amt(auth.bal[a], pp_denom) == amt(old(auth.bal[a]), pp_denom) + ite(old(pos.awardq[a]) && pit.at[iterator][a] < pit.pos[iterator], old(pos.awards[a]), 0)
+//@   loop 1 invariant amt(auth.bal[modaddr("staked_tokens_pool")], pp_denom) == amt(old(auth.bal[modaddr("staked_tokens_pool")]), pp_denom)
+//@   loop 1 invariant amt(auth.supply, pp_denom) == amt(old(auth.supply), pp_denom) + pit.sum[iterator][pit.pos[iterator]]
+//@   ensures [emptied] forall a Bytes :: !pos.awardq[a] && pos.awards[a] == 0
+//@   ensures [minted-each] forall a Bytes :: a != modaddr("staked_tokens_pool") ==> amt(auth.bal[a], pp_denom) == amt(old(auth.bal[a]), pp_denom) + old(pos.awards[a])
+//@   ensures [pool] amt(auth.bal[modaddr("staked_tokens_pool")], pp_denom) == amt(old(auth.bal[modaddr("staked_tokens_pool")]), pp_denom)
+//@   ensures [supply] amt(auth.supply, pp_denom) == amt(old(auth.supply), pp_denom) + old(pos.awardsum) && pos.awardsum == 0
 //@
 // C10: all collected fees leave the fee collector; the stake-denomination part goes to the proposer if it
 // is a known validator (else it stays in the pos module account); nothing is created or destroyed
